@@ -14,6 +14,12 @@ META = dict(
 TEMPLATES = {'tree': t_tree}
 
 
+def _wal_await():
+    cfg = S.wal_unserialisable()
+    cfg['main'] = [['root', 'A', 'P', 'P1'], ['root', 'A', 'U', 'U1'], ['root', 'A', 'L', 'L1'], ['await', 'U1'], ['await', 'L1'], ['idle', 'A'], ['obs_all', 'end']]
+    return cfg
+
+
 def jobs(tier):
     W = ('await returned',)
     out = [
@@ -23,6 +29,7 @@ def jobs(tier):
         mk('C03', 'child/raising', S.child('await', k=0, raising='child', actor=False), witnesses=W),
         mk('C03', 'late_grandchild', S.late_grandchild(), witnesses=W),
         mk('C03', 'deep_ff_chain', S.deep_ff_chain(), witnesses=W),
+        mk('C03', 'wal_unserialisable', _wal_await(), witnesses=W),
         mk('C03', 'recur/await', S.recur('await', 4)),
         mk('C03', 'recur/ff', S.recur('ff', 4)),
         mk('C03', 'x2/other_fresh', S.two_bus_await('other_fresh', ('A', 'B'), yield_first=False), witnesses=W),
